@@ -39,6 +39,9 @@ def queries(tier, seed=0):
     for q in dyn.base_queries(tier, level='step', kinds=kinds):
         if tier == 'quick' and len(q['shape']['sizes']) > 2:
             continue
+        q = dict(q, shape=dict(q['shape'], P=2))
+        if q['kind'] == 'privesc':
+            q['name'] = 'p1'
         for lim in (('sym',) if tier == 'quick' else ('sym', 'none')):
             d = dict(q)
             d['limit'] = lim
@@ -62,7 +65,7 @@ def run(src, q):
             draws.append(src.real("u%d" % i))
             i += 1
     scripted = stubs.ScriptedRand(draws, default=0.0)
-    dyn.scenario_actions(w, A)
+    dyn.scenario_actions(w, A, decoys=True)
     steps = src.int('steps', 0, None)
     r.runs = []
     r.pre = None
